@@ -22,7 +22,7 @@ CLAIMS = {
                  "the full pre-order filtered by level ≤ maxdepth, entries with level < mindepth are not reported, a directory is "
                  "immediately followed by its subtree, links are not entered, and with unbounded depth there are exactly as many events as "
                  "entries. Hypotheses explicit with a satisfying example: single-component names, listable directories, pairwise distinct "
-                 "directory/symlink inodes not seen before, root canonical path longer than '/' (counterexample theorem for D58). "
+                 "directory/symlink inodes not seen before, root canonical path longer than '/'; for the root directory '/' itself root_slash_child_level: an entry directly inside it is on level 1 (D58 fixed: calc_depth counted slashes and put '/' and '/usr' on one level; the check lists '/' and '/etc' against os.listdir). "
                  "Breadth-first mode (the default): bfs_root_exact — visit_dir(root) plus the queue loop is exactly check_file folded over "
                  "levelOrder (defined without fuel; the model's fuel, one per directory plus one, is proved sufficient), with exactly the "
                  "unlistable directories recorded; bfs_same_entries_as_dfs — the level order is a permutation of the depth-first pre-order "
